@@ -52,14 +52,25 @@ Fixpoint check_steps (F: fam) (d5: bool) (st: state) (l: list (op * (nat * optio
 Definition after_defs (F: fam) (d5: bool) (defs: list cid) : state :=
   fold_left (fun st c => fst (step F d5 FUEL st (Define c))) defs st0.
 
-(* None = agreement; Some 0 = state after class creation differs; Some (S i) = step i differs *)
+(* outcome kinds of the class statements, in definition order *)
+Definition def_kinds (F: fam) (d5: bool) (defs: list cid) : list nat :=
+  map okind (run F d5 FUEL st0 (map Define defs)).
+
+(* None = agreement; Some 0 = class creation fails in the model or the state after it differs; Some (S i) = step i differs *)
 Definition check_case (k: case) : option nat :=
   let st := after_defs (k_fam k) (k_d5 k) (k_defs k) in
-  if snap_ok st (k_init k) then
+  if forallb (Nat.eqb 0) (def_kinds (k_fam k) (k_d5 k) (k_defs k)) && snap_ok st (k_init k) then
     match check_steps (k_fam k) (k_d5 k) st (k_steps k) 0 with None => None | Some i => Some (S i) end
   else Some 0.
 
 Definition case_ok (k: case) : bool := match check_case k with None => true | Some _ => false end.
+
+(* families whose class statements fail (Config.allow_postponed_evaluation = False with an unresolved reference):
+   the class statements up to and including the failing one, with the observed outcome kinds *)
+Record ccase := CCASE { cc_fam : fam; cc_defs : list cid; cc_kinds : list nat }.
+Definition ccase_ok (k: ccase) : bool :=
+  let got := def_kinds (cc_fam k) true (cc_defs k) in
+  Nat.eqb (length got) (length (cc_kinds k)) && forallb (fun p => Nat.eqb (fst p) (snd p)) (combine got (cc_kinds k)).
 
 (* for diagnostics: the model's states along the case *)
 Definition trace_case (k: case) : list (state * nat) :=
